@@ -1,14 +1,17 @@
-/* Textually includes the working tree's lltdBlock.c (unmodified) and appends an accessor that
- * forgets every per-interface record, which a generated-case loop needs between cases.
- * The compiled code of parseFrame and its helpers is exactly the working tree's. */
+/* Textually includes the working tree's lltdBlock.c (unmodified) and appends an accessor that forgets every
+ * per-interface record, which a generated-case loop needs between cases. The compiled code of parseFrame and its
+ * helpers is exactly the working tree's. The accessor relies on as little as possible: the list head
+ * `g_iface_states` and the `next` link. What a record retains (observations, cached icon) is released beforehand by
+ * the harness through the public behaviour (a topology Reset delivered to every interface), not through internals.
+ * If this file does not compile against a refactored tree, the driver falls back to port/core_block_stub.c. */
 #include "lltdBlock.c"
+
+int verif_reset_level(void) { return 1; }
 
 void verif_reset_iface_states(void) {
     lltd_iface_state *cur = g_iface_states;
     while (cur) {
         lltd_iface_state *next = cur->next;
-        lltd_state_clear_seen_probes(cur);
-        lltd_state_clear_icon_cache(cur);
         lltd_port_free(cur);
         cur = next;
     }
